@@ -380,11 +380,236 @@ def build_case(base_seed, idx, C):
     return db, info
 
 
+# ------------------------------------------------------------------------------------------------
+# In-place edits through the public API, for histories "export, edit the same object, export again".  An edit script is plain
+# data (kind + positions + values) drawn from the structure of the matrix BEFORE anything was exported, so that the very same
+# script can be applied to the exported object and to a fresh equal matrix.
+EDIT_KINDS = ["frame-name", "frame-id", "frame-cycle-time", "signal-cycle-time", "frame-attribute", "signal-attribute", "define-default",
+              "global-attribute", "signal-name", "signal-scaling", "signal-receiver", "signal-comment", "signal-values", "signal-unit",
+              "signal-initial-value", "add-signal", "delete-signal", "add-frame", "delete-frame", "frame-size", "frame-comment",
+              "frame-transmitter", "ecu-rename", "add-ecu", "value-table"]
+# attribute names the writers conventionally consult (send type, delay, cycle time, start value) next to whatever the matrix defines
+CONVENTIONAL_FRAME_ATTRS = [("GenMsgSendType", 'ENUM "cyclic","spontaneous","cyclicIfActive"', ["cyclic", "spontaneous", "cyclicIfActive"]),
+                            ("GenMsgDelayTime", "INT 0 65535", ["0", "5", "20"]),
+                            ("GenMsgCycleTime", "INT 0 65535", ["10", "50", "250"]),
+                            ("GenMsgStartDelayTime", "INT 0 65535", ["0", "7"])]
+CONVENTIONAL_SIGNAL_ATTRS = [("GenSigSendType", 'ENUM "Cyclic","OnChange","OnWrite"', ["Cyclic", "OnChange", "OnWrite"]),
+                             ("GenSigInactiveValue", "INT 0 100000", ["0", "1"]),
+                             ("HexadecimalOutput", "BOOL False True", ["True", "False"])]
+
+
+def make_edit_script(db, rng, n_edits):
+    """a list of edit descriptions valid for this matrix"""
+    script = []
+    nf = len(db.frames)
+    used_ids = {(f.arbitration_id.id, bool(f.arbitration_id.extended)) for f in db.frames}
+    kinds = rng.sample(EDIT_KINDS, min(n_edits, len(EDIT_KINDS)))
+    deleted_frame = None
+    for k in kinds:
+        if nf == 0 and k not in ("add-frame", "add-ecu", "global-attribute", "value-table"):
+            continue
+        fi = rng.randrange(nf) if nf else 0
+        fr = db.frames[fi] if nf else None
+        ns = len(fr.signals) if fr is not None else 0
+        si = rng.randrange(ns) if ns else None
+        e = dict(kind=k, frame=fi, signal=si)
+        if k == "frame-name":
+            e["value"] = "Ed_%s_%d" % (fr.name[:12], rng.randrange(1000))
+        elif k == "frame-id":
+            ext = bool(fr.arbitration_id.extended)
+            for _ in range(100):
+                nid = rng.randrange(1, 2 ** 29 if ext else 2 ** 11)
+                if (nid, ext) not in used_ids:
+                    break
+            used_ids.add((nid, ext))
+            e["value"] = nid
+        elif k in ("frame-cycle-time", "signal-cycle-time"):
+            e["value"] = rng.choice([0, 10, 25, 40, 500, 1000])
+        elif k == "frame-attribute":
+            cands = list(CONVENTIONAL_FRAME_ATTRS)
+            for name, d in db.frame_defines.items():
+                if d.type == "ENUM" and d.values:
+                    cands.append((name, d.definition, list(d.values)))
+                elif d.type in ("INT", "HEX"):
+                    cands.append((name, d.definition, [str(d.min), str(d.max)]))
+            name, definition, vals = rng.choice(cands)
+            e.update(name=name, definition=definition, value=rng.choice(vals))
+        elif k == "signal-attribute":
+            cands = list(CONVENTIONAL_SIGNAL_ATTRS)
+            for name, d in db.signal_defines.items():
+                if d.type == "ENUM" and d.values:
+                    cands.append((name, d.definition, list(d.values)))
+            name, definition, vals = rng.choice(cands)
+            e.update(name=name, definition=definition, value=rng.choice(vals))
+        elif k == "define-default":
+            cands = [(n_, d) for c_ in ("frame_defines", "signal_defines", "ecu_defines", "global_defines") for n_, d in getattr(db, c_).items()]
+            cands = [(n_, d) for n_, d in cands if d.type in ("INT", "HEX", "ENUM", "STRING")]
+            if not cands:
+                e.update(name="GenMsgSendType", definition=CONVENTIONAL_FRAME_ATTRS[0][1], value="spontaneous", create=True)
+            else:
+                n_, d = rng.choice(cands)
+                v = rng.choice(d.values) if d.type == "ENUM" and d.values else (str(d.max) if d.type in ("INT", "HEX") else "edited")
+                e.update(name=n_, value=v)
+        elif k == "global-attribute":
+            e.update(name="EdNetAttr", definition="STRING", value="v%d" % rng.randrange(100))
+        elif k == "signal-name":
+            e["value"] = "EdSig_%d" % rng.randrange(10000)
+        elif k == "signal-scaling":
+            e["value"] = [rng.choice(["2", "0.25", "10"]), rng.choice(["0", "-3", "1.5"])]
+        elif k in ("signal-receiver", "frame-transmitter"):
+            e["value"] = rng.choice(db.ecus).name if db.ecus else "EdEcu"
+        elif k in ("signal-comment", "frame-comment"):
+            e["value"] = "edited comment %d" % rng.randrange(100)
+        elif k == "signal-values":
+            e["value"] = [rng.randrange(0, 2), "EdLabel%d" % rng.randrange(100)]
+        elif k == "signal-unit":
+            e["value"] = rng.choice(["mV", "s", "1/min"])
+        elif k == "signal-initial-value":
+            e["value"] = rng.choice(["0", "1", "2"])
+        elif k == "add-signal":
+            e["value"] = ["EdNew_%d" % rng.randrange(10000), rng.randrange(0, 8), rng.choice([True, False])]
+        elif k == "add-frame":
+            for _ in range(100):
+                nid = rng.randrange(1, 2 ** 11)
+                if (nid, False) not in used_ids:
+                    break
+            used_ids.add((nid, False))
+            e["value"] = ["EdFrame_%d" % rng.randrange(10000), nid, rng.choice([0, 20, 100])]
+        elif k == "delete-frame":
+            if nf < 2 or deleted_frame is not None:
+                continue
+            deleted_frame = fi
+        elif k == "frame-size":
+            e["value"] = rng.choice([8, 8, 16, 64])
+        elif k == "ecu-rename":
+            if not db.ecus:
+                continue
+            e.update(ecu=rng.randrange(len(db.ecus)), value="EdEcu_%d" % rng.randrange(1000))
+        elif k == "add-ecu":
+            e["value"] = "EdNewEcu_%d" % rng.randrange(1000)
+        elif k == "value-table":
+            e["value"] = ["EdTable%d" % rng.randrange(10), {0: "Zero", 1: "One", rng.randrange(2, 9): "More"}]
+        script.append(e)
+    # positions refer to the matrix as it is before the script runs: run the deletions last
+    script.sort(key=lambda e: e["kind"] in ("delete-frame",))
+    return script
+
+
+def apply_edits(db, script, C):
+    """apply the script in place; only public attributes / methods of the matrix are used.  Returns the kinds applied."""
+    frames = list(db.frames)          # positions as before the script
+    done = []
+    for e in script:
+        k = e["kind"]
+        fr = frames[e["frame"]] if frames and e.get("frame") is not None and e["frame"] < len(frames) else None
+        sg = fr.signals[e["signal"]] if fr is not None and e.get("signal") is not None and e["signal"] < len(fr.signals) else None
+        if k == "frame-name":
+            fr.name = e["value"]
+        elif k == "frame-id":
+            fr.arbitration_id = C.ArbitrationId(e["value"], fr.arbitration_id.extended)
+        elif k == "frame-cycle-time":
+            fr.cycle_time = e["value"]
+        elif k == "signal-cycle-time":
+            if sg is None:
+                continue
+            sg.cycle_time = e["value"]
+        elif k == "frame-attribute":
+            db.add_frame_defines(e["name"], e["definition"])
+            fr.add_attribute(e["name"], e["value"])
+        elif k == "signal-attribute":
+            if sg is None:
+                continue
+            db.add_signal_defines(e["name"], e["definition"])
+            sg.add_attribute(e["name"], e["value"])
+        elif k == "define-default":
+            if e.get("create"):
+                db.add_frame_defines(e["name"], e["definition"])
+            db.add_define_default(e["name"], e["value"])
+        elif k == "global-attribute":
+            db.add_global_defines(e["name"], e["definition"])
+            db.add_attribute(e["name"], e["value"])
+        elif k == "signal-name":
+            if sg is None or sg.is_multiplexer or any(s.muxer_for_signal == sg.name for s in fr.signals):
+                continue
+            sg.name = e["value"]
+        elif k == "signal-scaling":
+            if sg is None:
+                continue
+            sg.factor = decimal.Decimal(e["value"][0])
+            sg.offset = decimal.Decimal(e["value"][1])
+        elif k == "signal-receiver":
+            if sg is None:
+                continue
+            sg.add_receiver(e["value"])
+            fr.update_receiver()
+        elif k == "signal-comment":
+            if sg is None:
+                continue
+            sg.add_comment(e["value"])
+        elif k == "frame-comment":
+            fr.add_comment(e["value"])
+        elif k == "signal-values":
+            if sg is None:
+                continue
+            sg.add_values(e["value"][0], e["value"][1])
+        elif k == "signal-unit":
+            if sg is None:
+                continue
+            sg.unit = e["value"]
+        elif k == "signal-initial-value":
+            if sg is None:
+                continue
+            sg.initial_value = decimal.Decimal(e["value"])
+        elif k == "add-signal":
+            name, start, le = e["value"]
+            s = C.Signal(name, start_bit=start, size=1, is_little_endian=le, is_signed=False)
+            s.min, s.max = decimal.Decimal(0), decimal.Decimal(1)
+            fr.add_signal(s)
+        elif k == "delete-signal":
+            if sg is None or sg.is_multiplexer or sg.multiplex is not None or len(fr.signals) < 2:
+                continue
+            fr.signals.remove(sg)
+        elif k == "add-frame":
+            name, nid, ct = e["value"]
+            nf = C.Frame(name, arbitration_id=C.ArbitrationId(nid, False), size=8)
+            s = C.Signal("EdS_" + name, start_bit=0, size=8, is_little_endian=True, is_signed=False)
+            s.min, s.max = decimal.Decimal(0), decimal.Decimal(255)
+            nf.add_signal(s)
+            nf.cycle_time = ct
+            if db.ecus:
+                nf.add_transmitter(db.ecus[0].name)
+            db.add_frame(nf)
+        elif k == "delete-frame":
+            db.del_frame(fr)
+        elif k == "frame-size":
+            if fr.size > e["value"]:
+                continue
+            fr.size = e["value"]
+        elif k == "frame-transmitter":
+            fr.add_transmitter(e["value"])
+        elif k == "ecu-rename":
+            if e["ecu"] < len(db.ecus):
+                db.rename_ecu(db.ecus[e["ecu"]].name, e["value"])
+        elif k == "add-ecu":
+            db.add_ecu(C.Ecu(e["value"]))
+        elif k == "value-table":
+            db.add_value_table(e["value"][0], dict(e["value"][1]))
+        done.append(k)
+    return done
+
+
 def copier(db, base_seed, idx, C):
-    """-> function giving a fresh matrix equal to db that shares NO object with it: the case rebuilt from (seed, idx).
-    (copy.deepcopy would do for today's classes, but it shares whatever a class decides to share through __deepcopy__, and a SYM
-    import keeps exception objects in load_errors that cannot be deep-copied at all; p_c14 checks separately that deepcopy is
-    faithful where it works.)"""
+    """-> function giving a fresh matrix equal to db that shares NO object with it.  A pickle round trip when it reproduces the
+    matrix exactly (pickle ignores __deepcopy__, so nothing a class chooses to share between deep copies is shared here), else
+    the case rebuilt from (seed, idx) - e.g. a SYM import keeps exception objects in load_errors that cannot be re-instantiated.
+    (copy.deepcopy itself is checked for faithfulness separately in p_c14.)"""
+    import pickle
+    try:
+        blob = pickle.dumps(db, protocol=pickle.HIGHEST_PROTOCOL)
+        if snapshot(pickle.loads(blob)) == snapshot(db):
+            return lambda: pickle.loads(blob)
+    except Exception:
+        pass
     return lambda: build_case(base_seed, idx, C)[0]
 
 
